@@ -338,7 +338,7 @@ func cmdCheck(args []string) int {
 	for _, r := range results {
 		for _, v := range r.St.Violations {
 			k := v.Harness + "|" + v.Msg
-			if seenV[k] >= 2 {
+			if seenV[k] >= 6 { // several candidates per message: one that does not reproduce must not hide one that does
 				continue
 			}
 			seenV[k]++
